@@ -77,6 +77,12 @@ def build(ctx):
             bad.append({"name": nm})
     if len(el._EL_FROM_SYM) != len(rows) or len(el._EL_FROM_NAME) != len(rows):
         bad.append({"dict_sizes": [len(el._EL_FROM_SYM), len(el._EL_FROM_NAME)]})
+    # independent reference: the periodic table itself (IUPAC symbols in order of atomic number) — the row index IS the atomic number the look-ups return
+    PERIODIC = ("H He Li Be B C N O F Ne Na Mg Al Si P S Cl Ar K Ca Sc Ti V Cr Mn Fe Co Ni Cu Zn Ga Ge As Se Br Kr Rb Sr Y Zr Nb Mo Tc Ru Rh Pd Ag Cd In Sn Sb Te I Xe "
+                "Cs Ba La Ce Pr Nd Pm Sm Eu Gd Tb Dy Ho Er Tm Yb Lu Hf Ta W Re Os Ir Pt Au Hg Tl Pb Bi Po At Rn Fr Ra Ac Th Pa U Np Pu Am Cm Bk Cf Es Fm Md No Lr").split()
+    wrong = [{"Z": i + 1, "table": r[1], "periodic_table": PERIODIC[i]} for i, r in enumerate(rows[:103]) if i < len(PERIODIC) and r[1] != PERIODIC[i]]
+    ctx.ground("element.table/rows_are_in_atomic_number_order", len(PERIODIC) == 103 and not wrong, clause="row Z of the table carries the IUPAC symbol of element Z (Z = 1..103)",
+               detail=wrong[:4], witness=wrong[:4])
     ctx.ground("element.table/dictionaries", not bad, clause="both lookup dictionaries map every key to (row index + 1, row)", detail=bad[:5], witness=bad[:3])
 
     # ---------------------------------------------------------------- P: from_atomic_number is total and exact
